@@ -49,8 +49,12 @@ def gen_doc(rng, depth=0):
     return pro + root + epi
 
 XPATHS = ['//k', '//a/@p|//a/@a',  '//p:a', '//p:*', '//p:b|//p:c', '/', '/*', '//a', '//b', '//a|//b', '//*', '//@p', '//@*', '/*/*[1]', '//*[@p]', '//a//b', '/*/a', '//c/..', '//item',
+          '/|//@p', '//@*|/', '/|//a', '//a|/',      # the document node TOGETHER with other nodes
+          '//a|//a/@p', '//*|//@*', '/*|//@*', '//a/@q|//a', '//b|//@p', '//@*|/*/*',      # an element TOGETHER with one of its own attributes (W7-C17-1)
           '//text()', '//comment()', 'count(//a)', 'string(/*)', '1+', '//a[', '//nosuch', '//*[last()]', '/*/*[position()=2]', '//a/@q']
 VALUES = ['', 'new', '<k/>', 'x<k a="1">y</k>z', '<!--c-->', '<![CDATA[<raw>]]>', 'a&amp;b', '<k><m/><m/>t</k>', 'two<k/><k/>',
+          '<![CDATA[]]><k/>', '<k/><![CDATA[]]>', '<!--c--><k/><?p d?>', '<k/> ',      # under the document node: empty character data is a node for the tool
+          'it"s\'x', '"', "'", 'a"b', "a'b'c", '"\'&amp;\'"', 'x<k a=\'"\'/>',      # both kinds of quotation mark in a text that becomes an attribute value (W7-C17-2)
           '<?pi d?>', '&#65;', '<p:g xmlns:p="u"/>', '<k p:a="1" xmlns:p="u"/>', '<k', 'a<b', '&undeclared;', '<k/><!--c-->', 'é\U0001F600', ' ', '<k>&lt;</k>']
 
 def enc(s):
@@ -74,8 +78,13 @@ def frag_features(fragdump):
         if ':' in lib.dec(m.group(1)): feats.add('prefixed')
     return feats
 
+def noempty(dump):
+    """character data without characters (an empty CDATA section of the replacement; C01 finding WF14, C14 finding DD3) is in no
+    serialisation and is not an information item: dropped from both sides before the tool's re-parsed output is compared"""
+    return dump.replace('(t -)', '')
+
 def check(run):
-    run.trusted = ['Coq 8.16.1 kernel', 'Spec/XeSpec.v (replace_spec: what "replace the children of exactly the selected nodes" means on abstract trees)',
+    run.trusted = ['Coq 8.16.1 kernel', 'Spec/XeSpec.v (replace_spec: what "replace the children of exactly the selected nodes" means on abstract trees) and Spec/XeStrict.v (replace_spec_strict: the same document, refused when the replacement cannot stand at some selected node; oracle of the search)',
                    'Model/Cli.v (hand-written model of xpath/examples/xe.rs), tied by the cli correspondence against the real binaries',
                    'selection and parsing are taken from the library (properties C05/C01 are decided by their own checks)',
                    'harness/src/domains/cli.rs dump format; OS process spawning, exit codes and pipes are observed, not modelled']
@@ -167,8 +176,8 @@ def check(run):
         # correspondence: model vs tool
         m = mo.get(i)
         if m is not None and m != 'unmodelled':
-            want = ('rc=0 out=' + m[5:]) if m.startswith('done:') else 'rc=1'
-            got = ('rc=0 out=' + f.get('out', '')) if rc_ok else 'rc=' + f.get('rc', '?')
+            want = ('rc=0 out=' + noempty(m[5:])) if m.startswith('done:') else 'rc=1'
+            got = ('rc=0 out=' + noempty(f.get('out', ''))) if rc_ok else 'rc=' + f.get('rc', '?')
             if want != got:
                 run.tie_breaks.append('cli correspondence: xe on %r xpath %r value %r: model %s, tool %s' % (d, x, v, want[:200], got[:200]))
         # search: spec vs tool
@@ -176,7 +185,7 @@ def check(run):
         if s is None:
             continue
         if s.startswith('done:'):
-            if rc_ok and f.get('out', '') == s[5:]:
+            if rc_ok and noempty(f.get('out', '')) == noempty(s[5:]):
                 continue
             what = 'xe output is not the document with exactly the selected nodes\' children replaced'
         else:
